@@ -96,7 +96,7 @@ def run_once(proj, tmp, force_disabled, nthreads):
     except _Timeout:
         return "timeout"
     except BaseException as e:
-        return "exception %s: %s" % (type(e).__name__, str(e)[:1500])
+        return "exception %s: %s" % (type(e).__name__, str(e)[-1500:])
     finally:
         if use_alarm:
             signal.alarm(0)
@@ -458,6 +458,9 @@ def check(run):
         obs = run_impl(proj, plans)
         run.evaluations += 1
         run.count("label:" + label.split("+")[0])
+        for dsc in G.LAST_DETAILS:
+            if "cycle" in dsc:
+                run.count(dsc)
         run.count("verdict:" + ("accepted" if obs["code"] == 0 else REASONS[obs["code"] - 1] if obs["code"] < 200 else "other-exception"))
         run.count("fixtures", len(proj["fixtures"]))
         run.count("tests", sum(1 for _ in flatten_tests(proj["suites"])))
